@@ -81,6 +81,13 @@ class Gen:
             body = self.ss(s.type_map[cond], 1)
             self.frags.append((f'F{k}', cond))
             self.defs.append(f'fragment F{k} on {cond} {body}')
+            if self.r.random() < 0.3:
+                # a wrapper that holds nothing but spreads (any depth of such wrappers): what it contributes is only reachable
+                # through the fragments it names
+                inner = self.r.sample(self.frags, min(len(self.frags), self.r.randint(1, 2)))
+                wcond = self.r.choice([cond, inner[0][1]])
+                self.frags.append((f'W{k}', wcond))
+                self.defs.append(f'fragment W{k} on {wcond} {{ ' + ' '.join('...' + n for n, _ in inner) + ' }')
         q = self.ss(s.query_type, 0)
         return 'query ($v: Int) ' + q + '\n' + '\n'.join(self.defs)
 
